@@ -32,6 +32,7 @@ import XehModel.Proofs.CursorLemmas
 import XehModel.Proofs.CursorRead
 import XehModel.Proofs.CursorLifo
 import XehModel.Proofs.CursorFind
+import XehModel.Proofs.BitstrHeap
 
 set_option linter.unusedSimpArgs false
 set_option linter.unusedVariables false
@@ -287,5 +288,44 @@ example :
   have hlen := hp.length_le
   rw [List.prefix_iff_eq_take.mp hp]
   exact key _ (by simp at hlen; omega)
+
+/-! ### the two layers agree: the cursor model's input is a bit list, the implementation's is a handle into a buffer -/
+
+/-- **Reads do not depend on how the input is stored.** The cursor model (Model/Cursor.lean) keeps the open input as a
+    plain list of bits and a base; the implementation keeps a `Bitstr` handle and reads with
+    `substr(offset, offset + n)` (`peek_bits`). For EVERY buffer heap and EVERY well-formed handle that denotes the
+    model's input and starts at the model's base — a fresh value, a slice of a longer buffer with stale bits around
+    it, a buffer shared with other values — the model's `peek` succeeds exactly when that `substr` does, and with the
+    same bits. (With `Proofs/BitstrPoolStep.lean` this holds on every state an operation history reaches.) -/
+theorem reads_do_not_depend_on_storage (h : Bitstr.Heap) (inp : Bitstr.Handle) (wf : Bitstr.WF h inp) (cs : CurState)
+    (hin : cs.input = Bitstr.bits h inp) (hbase : cs.base = inp.start) (n : Nat) :
+    match peek cs n with
+    | .ok bs => ∃ h' r, Bitstr.substr h inp (cs.base + cs.pos) (cs.base + cs.pos + n) = (h', some r) ∧
+        Bitstr.WF h' r ∧ Bitstr.bits h' r = bs
+    | _ => cs.base + cs.pos + n > usizeMaxN ∨
+        Bitstr.substr h inp (cs.base + cs.pos) (cs.base + cs.pos + n) = (h, none) := by
+  have hlen : cs.input.length = inp.end_ - inp.start := by rw [hin]; exact Bitstr.bits_length h inp wf
+  have hle : inp.start ≤ inp.end_ := wf.view.le
+  unfold peek
+  by_cases h1 : cs.base + cs.pos + n > usizeMaxN
+  · rw [if_pos h1]; exact Or.inl h1
+  · rw [if_neg h1]
+    by_cases h2 : cs.pos + n ≤ cs.input.length
+    · rw [if_pos h2]
+      simp only
+      have hb : cs.base + cs.pos + n ≤ inp.end_ := by omega
+      refine ⟨_, _, by unfold Bitstr.substr; rw [if_pos ⟨by omega, by omega, hb⟩],
+        Bitstr.WF_incRc _ _ _ (Bitstr.WF_sub h inp wf _ _ (by omega) hb), ?_⟩
+      rw [Bitstr.bits_incRc, Bitstr.bits_eq, hin, Bitstr.bits_eq]
+      show Bits.slice _ (cs.base + cs.pos) (cs.base + cs.pos + n) = _
+      unfold Bits.slice
+      rw [List.drop_take, List.drop_drop, List.take_take]
+      congr 1
+      · omega
+      · congr 1; omega
+    · rw [if_neg h2]
+      right
+      unfold Bitstr.substr
+      rw [if_neg (by omega)]
 
 end Xeh.C06
